@@ -219,6 +219,64 @@ def wrapper_trace_oracle(rng):
     return []
 
 
+def refit_oracle(rng):
+    """the search of a fit call on a USED estimator (trained, then read: predict, W, n_clusters, cluster centres): its
+    first sample founds category 0 and every sample is assigned as in the one-sample-at-a-time presentation on a
+    freshly constructed twin (whose single searches the scan oracles above judge)"""
+    import random as _r
+    import contextlib, io
+    import zoo
+    name = rng.choice(["Fusion", "Fusion", "DualVigilance", "K"])
+    sd = rng.getrandbits(32)
+
+    def build():
+        r = _r.Random(sd)
+        if name == "K":
+            k, rows = B.gen_any_kernel_and_rows(r)
+            return B.make_est(k), (lambda n, rows=rows, r=r: np.array([r.choice(rows) for _ in range(n)], dtype=float)), repr(k)
+        z = zoo.make(name, r)
+        return z["est"], (lambda n: z["gen"](n)[0]), name
+    est, gen, desc = build()
+    twin, _, _ = build()
+    X1, X2 = gen(rng.randrange(2, 9)), gen(rng.randrange(2, 9))
+    mode = rng.choice(B.MODES)
+    eps = rng.choice([0.0, 1 / 1024, 0.0625])
+    first = rng.choice(["fit", "partial_fit"])
+    reads = [r for r in ("predict", "W", "n_clusters", "centres") if rng.random() < 0.5]
+    rep = {"estimator": desc, "params": repr(est.get_params())[:400], "X1": X1.tolist(), "X2": X2.tolist(), "mode": mode, "eps": eps,
+           "how": f"{first}(X1); reads {reads}; fit(X2, match_tracking=mode, epsilon=eps) versus a fresh twin given X2 one row at a time"}
+    with contextlib.redirect_stdout(io.StringIO()), np.errstate(all="ignore"):
+        try:
+            getattr(est, first)(X1, match_tracking=mode, epsilon=eps)
+            for r in reads:
+                if r == "predict":
+                    est.predict(X1[: max(1, len(X1) // 2)])
+                elif r == "W":
+                    len(est.W)
+                elif r == "n_clusters":
+                    est.n_clusters
+                else:
+                    est.get_cluster_centers()
+        except Exception:
+            return []
+        try:
+            for x in X2:
+                twin.partial_fit(x.reshape(1, -1), match_tracking=mode, epsilon=eps)
+        except Exception:
+            return []
+        try:
+            est.fit(X2, match_tracking=mode, epsilon=eps)
+        except Exception as e:
+            return [{"signature": f"{type(est).__name__}/refit-search", "text": f"fit on a used estimator raised {type(e).__name__}: {str(e)[:80]} (a fresh one accepts the same rows)", "replay": rep}]
+    la, lb = [int(v) for v in est.labels_], [int(v) for v in twin.labels_]
+    if la != lb:
+        return [{"signature": f"{type(est).__name__}/refit-search", "text": f"fit on a used estimator assigns {la}, the specified search on a fresh one {lb}", "replay": rep}]
+    Wa, Wb = list(est.W), list(twin.W)
+    if len(Wa) != len(Wb) or any(not np.array_equal(np.asarray(a, dtype=float), np.asarray(b, dtype=float)) for a, b in zip(Wa, Wb)):
+        return [{"signature": f"{type(est).__name__}/refit-search", "text": "fit on a used estimator ends with other categories than the specified search on a fresh one", "replay": rep}]
+    return []
+
+
 def nontrivial(obs):
     """>= 2 categories and at least one reset-function call or a new category after the first"""
     for r in obs:
@@ -275,6 +333,12 @@ def main():
     for _ in range(n_wrap):
         fails.extend(wrapper_trace_oracle(rng_w))
 
+    # fit on a used estimator (after training and reads)
+    rng_r = C.make_rng(seed, "C01-refit")
+    n_refit = 200 if tier == "quick" else 2000
+    for _ in range(n_refit):
+        fails.extend(refit_oracle(rng_r))
+
     def extended():
         out = []
         rng2 = C.make_rng(seed, "C01-ext")
@@ -291,7 +355,7 @@ def main():
         "rule": "random grid data (k/8, small row pools -> duplicates and exact ties), kernels Fuzzy/ART1/ART2A, rho k/8, 5 modes x eps in {0,2^-10,1/16,1/4}, "
                 "70% with a table reset function; fit or 2-3 partial_fit batches; non-trivial = distinct case reaching >= 2 categories",
         "traces_validated_against_impl": sum(1 for c in codes if c == 0),
-        "oracle_cases": n_or, "all_module_oracle_cases": n_any, "wrapper_trace_cases": n_wrap,
+        "oracle_cases": n_or, "all_module_oracle_cases": n_any, "wrapper_trace_cases": n_wrap, "refit_after_reads_cases": n_refit,
         "distribution": stats,
         "samples": [summaries[0], summaries[1]],
     })
